@@ -109,6 +109,16 @@ def gen_sixel():
         raise ExtractError('parse_char: the colour register guard changed')
     if not re.search(r'last_line = self\.height\(\);\s*\}\s*if x_pos >= MAX_SIXEL_SIZE \|\| last_line > MAX_SIXEL_SIZE \{\s*return Err\(ParserError::InvalidPictureSize\.into\(\)\);\s*\}\s*if \(self\.picture_data\.len\(\) as i32\) < last_line \{', tr):
         raise ExtractError('translate_sixel_to_pixel: the size guard between the height clamp and the row resize changed')
+    # ---- the raster attribute arm of `parse_char` (model: `sizeArm`): both forms `resize` the row vector to the declared
+    # height UNCONDITIONALLY — `Vec::resize` grows and CUTS —, the theorem `sixel_raster_consistent` rests on it
+    m15 = re.search(r'(self\.vertical_scale = self\.parsed_numbers\[0\];.*?self\.state = SixelState::Read;)\s*self\.parse_sixel_data\(ch\)\?;', pc, re.S)
+    if not m15:
+        raise ExtractError('parse_char: the raster attribute arm (ReadSize) was not found')
+    raster_lines = [ln.strip() for ln in m15.group(1).split('\n') if ln.strip() and not ln.strip().startswith('//')]
+    for need in ('self.picture_data.resize(height as usize, Vec::new());',
+                 'self.picture_data.resize(height as usize, vec![0; 4 * width as usize]);'):
+        if need not in raster_lines:
+            raise ExtractError('parse_char: the raster attribute arm no longer resizes the rows to the declared height with `' + need + '`')
     out = [HEADER, 'namespace IcyVerif.Gen.Sixel\n']
     out.append(f'/-- `MAX_SIXEL_SIZE`: largest picture width / height in pixels -/\ndef maxSixelSize : Nat := {int(m13.group(1).replace("_", ""))}\n')
     out.append(f'/-- `MAX_SIXEL_COLORS`: colour registers a stream may define -/\ndef maxSixelColors : Nat := {int(m14.group(1).replace("_", ""))}\n')
@@ -123,6 +133,8 @@ def gen_sixel():
     ulines = [ln.strip() for ln in m10.group(1).split('\n') if ln.strip()]
     out.append('/-- body of `Buffer::update_sixel_threads`, line by line -/\n')
     out.append('def src_update_sixel_threads : List String := [\n  ' + ',\n  '.join(json.dumps(ln) for ln in ulines) + ']\n')
+    out.append('/-- the raster attribute arm of `SixelParser::parse_char` (state ReadSize, after the guard), line by line -/\n')
+    out.append('def src_raster_arm : List String := [\n  ' + ',\n  '.join(json.dumps(ln) for ln in raster_lines) + ']\n')
     out.append('/-- the join loop and the sixel-to-layer loop of `parse_with_parser` -/\n')
     lines = [ln.strip() for ln in m11.group(1).split('\n') if ln.strip()]
     out.append('def src_sixel_to_layers : List String := [\n  ' + ',\n  '.join(json.dumps(ln) for ln in lines) + ']\n')
